@@ -167,6 +167,40 @@ func (c *Ctx) c05ModelRows(n int) {
 	}
 }
 
+// merge and unmerge calls over a small grid, most of them overlapping what is already merged
+func (c *Ctx) c05Merges(n int) {
+	for i := 0; i < n; i++ {
+		type mop struct {
+			Unmerge bool   `json:"unmerge,omitempty"`
+			A       string `json:"a"`
+			B       string `json:"b"`
+		}
+		var ops []mop
+		for j := 0; j < 2+c.Rng.Intn(6); j++ {
+			c1, r1 := 1+c.Rng.Intn(6), 1+c.Rng.Intn(6)
+			c2, r2 := c1+c.Rng.Intn(3), r1+c.Rng.Intn(3)
+			a, _ := excelize.CoordinatesToCellName(c1, r1)
+			b, _ := excelize.CoordinatesToCellName(c2, r2)
+			if c.Rng.Intn(2) == 0 {
+				a, b = b, a
+			}
+			ops = append(ops, mop{Unmerge: c.Rng.Intn(7) == 0, A: a, B: b})
+		}
+		c.guard("C05_no_panic", ops, func() {
+			f := excelize.NewFile()
+			defer f.Close()
+			for _, o := range ops {
+				if o.Unmerge {
+					f.UnmergeCell("Sheet1", o.A, o.B)
+				} else {
+					f.MergeCell("Sheet1", o.A, o.B)
+				}
+			}
+			c.c05Check("merge history", ops, f, nil)
+		})
+	}
+}
+
 func (c *Ctx) c05WorkbookHistories(n int) {
 	for i := 0; i < n; i++ {
 		var ops []wop
@@ -428,13 +462,14 @@ func (c *Ctx) c05Fixtures() {
 }
 
 func runC05(c *Ctx) {
-	c.R.Rule = "every saved package goes through an independent validator (archive/zip + XML tokenizer; no excelize code): unique entries, well-formed XML parts, content types, relationship targets and r:id resolution, sheet list (unique valid names and ids, one sheet per part), defined names, rows and cells strictly ascending and consistent with references, shared-string / cell-format / differential-format / number-format / font / fill / border indices in range, merged ranges disjoint, calc chain pointing at formula cells, table refs and names. Sources: random sheet histories (values, formulas, styles, merges, attributes, hyperlinks, saves) with and without structural edits, random workbook histories (new, delete, move, rename, copy, visibility, grouping, defined names), one scenario per feature family (charts, chart sheet, pictures, shapes, comments, form controls, sparklines, pivot table + slicer, tables + auto filter, conditional formats + data validations + defined names + hyperlinks, delete/copy/rename of a loaded sheet, stream writer, styles) each also reopened, edited and saved again, and edited fixture files. non-trivial = all"
+	c.R.Rule = "every saved package goes through an independent validator (archive/zip + XML tokenizer; no excelize code): unique entries, well-formed XML parts, content types, relationship targets and r:id resolution, sheet list (unique valid names and ids, one sheet per part), defined names, rows and cells strictly ascending and consistent with references, shared-string / cell-format / differential-format / number-format / font / fill / border indices in range, merged ranges disjoint, calc chain pointing at formula cells, table refs and names. Sources: random sheet histories (values, formulas, styles, merges, attributes, hyperlinks, saves) with and without structural edits, random workbook histories (new, delete, move, rename, copy, visibility, grouping, defined names), random merge/unmerge histories over a 8x8 grid (mostly overlapping ranges, either corner order), one scenario per feature family (charts, chart sheet, pictures, shapes, comments, form controls, sparklines, pivot table + slicer, tables + auto filter, conditional formats + data validations + defined names + hyperlinks, delete/copy/rename of a loaded sheet, stream writer, styles) each also reopened, edited and saved again, and edited fixture files. non-trivial = all"
 	n := 60
 	if c.Thorough() {
 		n = 1500
 	}
 	c.c05SheetHistories(n)
 	c.c05WorkbookHistories(n)
+	c.c05Merges(n * 3)
 	c.c05Features()
 	c.c05Fixtures()
 	c.c05ModelRows(n * 2)
